@@ -21,8 +21,8 @@ def run(tier, seed):
     deductive(rep, "C02", TJ.FUNCS, "contracts.textjoin")
     rep.explanation = (
         "Mixed. Deductive: StateBlock.push is inlined into every leaf block rule and the postconditions 'tokens appended are balanced, level == entry "
-        "level + depth, nesting/type/tag as specified, block flag set, state.level restored' are discharged for the seven leaf rules. text_join / _join_children are verified: afterwards no child at any image-nesting depth is a text_special and no two adjacent children are text (modular recursion through the summary predicate Joined). Bounded: the full "
+        "level + depth, nesting/type/tag as specified, block flag set, state.level restored' are discharged for the seven leaf rules. text_join / _join_children are verified: afterwards no child at any image-nesting depth is a text_special and no two adjacent children are text (modular recursion through the summary predicate Joined). blockquote and list_block restore state.level and push matching open/close tokens around the nested block loop. Bounded: the full "
         "stream contract of the statement monitored on parse/parseInline output (containers, emphasis pairing, fragments_join, text_join are bounded).")
-    rep.trusted_base = STD_TRUST
-    rep.assumptions = ["delimiter matching (processDelimiters/_postProcess) is a protocol-level invariant checked only by the bounded stream monitor"]
+    rep.trusted_base += STD_TRUST
+    rep.assumptions += ["delimiter matching (processDelimiters/_postProcess) is a protocol-level invariant checked only by the bounded stream monitor"]
     return rep
